@@ -55,9 +55,11 @@ BACKENDS = [("xml", {}), ("xml", {"local_style": True}),
             ("json", {}), ("yaml", {})] + [("rdf", {"rdf_format": f}) for f in RDF_FORMATS]
 DEFECTS = ["none", "warn", "type", "dupid", "dupname",
            # the same three ways of being invalid, planted deep and across branches
-           "type_deep", "dupid_deep", "dupid_prop", "dupid_prop_deep", "dupname_deep", "dupname_prop"]
+           "type_deep", "dupid_deep", "dupid_prop", "dupid_prop_deep", "dupname_deep", "dupname_prop",
+           # the defect sits in content a resolved link brought in, and its origin has left the document
+           "type_copy"]
 ERROR_DEFECTS = ("type", "dupid", "dupname", "type_deep", "dupid_deep", "dupid_prop",
-                 "dupid_prop_deep", "dupname_deep", "dupname_prop")
+                 "dupid_prop_deep", "dupname_deep", "dupname_prop", "type_copy")
 FAILS = ["none", "rdf_format", "ctrl_name", "ctrl_value", "ctrl_def", "json_obj",
          # text no encoder of a text file can hold: a lone surrogate (what os.fsdecode returns
          # for undecodable file names); a renderer that lets it through fails in write()
@@ -159,6 +161,14 @@ def build_doc(odml, defect, fail, variant=0):
         rng.choice([s for s in secs if s.parent is doc]).type = None
     elif defect == "type_deep":
         rng.choice(deep).type = None
+    elif defect == "type_copy":
+        tmpl = odml.Section(name="tmpl", type="t", parent=doc)
+        bad = odml.Section(name="inner", type="t", parent=tmpl)
+        odml.Property(name="pt", values=[1], parent=bad)
+        bad.type = None
+        user = odml.Section(name="user", type="t", parent=rng.choice(secs))
+        user.link = "/tmpl"                 # resolved at once: user holds a copy of 'inner'
+        doc.remove(tmpl)                    # the origin is gone, the copy without a type stays
     elif defect == "dupid":
         src = rng.choice([s for s in secs if s.parent is doc])
         dup = src.clone(keep_id=True)
